@@ -98,6 +98,13 @@ CHECKS = {
         design_ref="DESIGN.md §4 C09",
         note="Bounded progress restated from the statement: fixed point within five applications (the tool's MAX_MODULE_PASSES).",
     ),
+    "C20": dict(
+        technique="runtime post-condition monitor: literal line comparison of annotated physical lines before/after format_code with attribution of a lost line to the pipeline step (H-rule) and back-end (H-direct / H-sched) that dropped it; skip_file through library, format_file (audit hook: no open-for-write) and the --from-stdin subprocess",
+        category="exploration",
+        text="Programs on which rules fire (repository examples, antagonistic inputs, construct zoo) are annotated with `# pyrefact: ignore` on every annotatable physical line in turn (tokenize decides annotatability; 7 lines per program sampled in quick) and on random subsets, formatted under 4 option vectors, and each annotated line must appear verbatim, with multiplicity and relative order, in the output (~1.2k runs, ~1.8k annotated lines per quick run). 44 texts carrying `# pyrefact: skip_file` (own line, trailing, first/middle/last, inside a literal, invalid file, tabs) must come back byte-identical from format_code under 3 option vectors, must not be opened for writing by format_file and must be echoed by --from-stdin.",
+        design_ref="DESIGN.md §4 C20",
+        note="Canonical comment spellings; the line, not the statement, has to survive.",
+    ),
 }
 
 NOT_YET = {}
